@@ -1140,6 +1140,12 @@ def c18(res: Result):
         tt = bn.disjoint_union(a, b)
         strat = rng.choice(COMPLETE_DEFAULT)
         tasks.append({"tid": f"u{i}", "tt": tt, "ops": list(strat) + [{"op": "expseeds"}], "meta": f"disjoint union {len(a)}+{len(b)}"})
+    # modules that are conditioned on another module rather than independent of it (the hand-built networks), under the strategies
+    # that exploit the block structure
+    for name, tt in gen.gadget_networks().items():
+        if len(tt) <= 6:
+            for j, strat in enumerate((COMPLETE_DEFAULT[0], COMPLETE_DEFAULT[1], COMPLETE_DEFAULT[4])):
+                tasks.append({"tid": f"g{name}_{j}", "tt": tt, "ops": list(strat) + [{"op": "expseeds"}], "meta": f"gadget:{name}"})
     execute_and_validate(res, tasks, ["Inv_C01", "Inv_MinExact", "Inv_WF"], "union",
                          lambda tr: sum(len(n["seeds"]["v"]) for n in tr["events"][-1]["post"]["nodes"]) >= 2)
     # (2) inputs fixed vs free
